@@ -1,2 +1,3 @@
 import Driver.Handler
 import Driver.Slice
+import Driver.Ssf
